@@ -75,7 +75,19 @@ def new_helper() -> tuple[Any, Rec]:
 
     rec = Rec()
     h = APIPlaintextFrameHelper(connection=rec, client_info="x", log_name="x")  # type: ignore[arg-type]
+    h.connection_made(_Transport())  # type: ignore[arg-type]  # asyncio never delivers data before connection_made
     return h, rec
+
+
+class _Transport:
+    def write(self, data: Any) -> None:
+        pass
+
+    def close(self) -> None:
+        pass
+
+    def is_closing(self) -> bool:
+        return False
 
 
 SKIP_SLOTS = {"_loop", "_connection", "_transport", "_writer", "ready_future", "_client_info", "_log_name"}
